@@ -111,3 +111,14 @@ func J(v any) string {
 	}
 	return string(b)
 }
+
+// Require makes the run inconclusive when one of the named counters stayed at
+// zero: the monitor then has not seen what it is there to judge, whatever the
+// reason (a generator whose documents are all refused, a missing binary, …).
+func (c *Ctx) Require(keys ...string) {
+	for _, k := range keys {
+		if c.R.Counter(k) == 0 {
+			c.R.Inconclusive("nothing-observed:" + k)
+		}
+	}
+}
